@@ -103,11 +103,24 @@ def split_games(lines):
     return blocks
 
 
-def run_blocks(exe, blocks, timeout=3000, env=None, nshards=None):
+CURRENT_TIER = "quick"
+
+
+def default_timeout(exe):
+    """watchdog per shard: the real code must answer quickly in the quick tier (a search that runs on is a finding,
+    not something to wait for); the extracted model is slower and gets more room"""
+    impl = "target-harness" in exe or "target-bin" in exe
+    if CURRENT_TIER == "quick":
+        return 150 if impl else 900
+    return 1800 if impl else 3000
+
+
+def run_blocks(exe, blocks, timeout=None, env=None, nshards=None):
     """run blocks over parallel shards; returns dict block-id -> list of output lines.
     A shard that crashes or times out yields '!! crashed' for its unfinished blocks."""
     if not blocks:
         return {}
+    timeout = min(timeout, default_timeout(exe)) if timeout else default_timeout(exe)
     nshards = nshards or min(NPROC, max(1, len(blocks)))
     shards = [[] for _ in range(nshards)]
     for i, b in enumerate(blocks):
@@ -136,9 +149,9 @@ def run_blocks(exe, blocks, timeout=3000, env=None, nshards=None):
             last = seen[-1] if seen else None
             for i in ids:
                 if i not in res:
-                    res[i] = ["!! crashed rc=%d (not reached)" % rc]
+                    res[i] = ["!! %s (not reached)" % ("no answer within %d s" % timeout if rc == -999 else "crashed rc=%d" % rc)]
             if last is not None:
-                res[last].append("!! crashed rc=%d" % rc)
+                res[last].append("!! %s" % ("no answer within %d s: the command above did not finish" % timeout if rc == -999 else "crashed rc=%d" % rc))
         return res
 
     result = {}
@@ -269,6 +282,8 @@ def known_findings(prop):
 
 class Check:
     def __init__(self, prop, tier, seed):
+        global CURRENT_TIER
+        CURRENT_TIER = tier
         self.prop = prop
         self.tier = tier
         self.seed = seed
